@@ -329,9 +329,22 @@ func ruleLMTPLoopComplete(c *Ctx) {
 func ruleRcptsRecorded(c *Ctx) {
 	R := c.R
 	_, s := c.Std()
+	closeScope := map[string]bool{}
+	for _, g := range c18CloseScope(c) {
+		closeScope[funcName(g)] = true
+	}
 	for _, st := range c.Sites("st:Client.rcpts") {
 		_, _, v := storedField(st)
 		if isNilConst(v) {
+			// the list is dropped only where the server's transaction ends or begins too: MAIL, a successful RSET,
+			// the end-of-data exchange. A refused DATA (or anything else) leaves the transaction — and the accepted
+			// recipients — in place on the server; DATA may be retried and is then answered once per recipient
+			fn := funcName(st.Parent())
+			okPlace := fn == "(*Client).Mail" || fn == "(*Client).Reset" || closeScope[fn]
+			R.Ob(c.siteKey(st, "recipients dropped only at a transaction boundary"), c.P.InstrPos(st), okPlace, fn+" clears Client.rcpts although the server's transaction (and its accepted recipients) is still open: a later DATA in the same transaction is answered once per recipient, but Close waits for none — the statuses are lost and the unread replies are taken for the answers to the next commands")
+			if fn == "(*Client).Reset" {
+				c.obFactMatch("recipients dropped by Reset only after the server agreed", st, `^\(\*Client\)\.cmd\(param0,250,"RSET",.*\)#2 == nil$`, "Reset drops the recipients although RSET was not accepted")
+			}
 			continue
 		}
 		fn := funcName(st.Parent())
